@@ -256,3 +256,5 @@ func runC05(c c05Case) *vlib.Outcome {
 func TestC05(t *testing.T) {
 	vlib.Check(t, "C05", genC05, runC05)
 }
+
+func FuzzC05(f *testing.F) { vlib.Fuzz(f, "C05", genC05, runC05) }
